@@ -443,6 +443,12 @@ impl<'a> P<'a> {
         self.depth -= 1;
     }
 
+    /// Records where a line of a block statement that holds an expression stands (ELSEIF, CASE, LOOP WHILE / UNTIL).
+    fn aux_pos(&mut self, stmt: Id, k: u32, text: &str) {
+        let n = text.chars().count() as u32;
+        self.pos.insert(crate::gast::aux_id(stmt, k), Pos { row: self.row, col_first: self.col.saturating_sub(n), col_last: self.col.saturating_sub(1) });
+    }
+
     /// A line that belongs to a block statement (ELSE, NEXT, END IF, ...).
     fn aux_line(&mut self, text: &str) {
         if self.inline > 0 && self.col > 1 {
@@ -514,9 +520,10 @@ impl<'a> P<'a> {
                 self.push(&t);
                 self.end(s.id, false);
                 self.block(&arms[0].1);
-                for (c, body) in arms.iter().skip(1) {
+                for (i, (c, body)) in arms.iter().enumerate().skip(1) {
                     let t = format!("{}{}{}{}{}", self.kw("ELSEIF"), b, self.expr(c), b, self.kw("THEN"));
                     self.aux_line(&t);
+                    self.aux_pos(s.id, i as u32, &t);
                     self.block(body);
                 }
                 if let Some(e) = els {
@@ -532,6 +539,7 @@ impl<'a> P<'a> {
                 let t = format!("{}{}{}", self.kw("SELECT CASE"), b, self.expr(subject));
                 self.push(&t);
                 self.end(s.id, false);
+                let mut case_ix = 1u32;
                 for (tests, body) in cases {
                     let ts: Vec<String> = tests
                         .iter()
@@ -543,6 +551,8 @@ impl<'a> P<'a> {
                         .collect();
                     let t = format!("{}{}{}", self.kw("CASE"), b, ts.join(&format!(",{}", b)));
                     self.aux_line(&t);
+                    self.aux_pos(s.id, case_ix, &t);
+                    case_ix += 1;
                     self.block(body);
                 }
                 if let Some(e) = els {
@@ -606,6 +616,9 @@ impl<'a> P<'a> {
                     _ => self.kw("LOOP"),
                 };
                 self.aux_line(&tail);
+                if matches!(kind, DoKind::WhileBottom | DoKind::UntilBottom) {
+                    self.aux_pos(s.id, 63, &tail);
+                }
             }
             K::Label(l) => {
                 if self.col > 1 {
